@@ -25,12 +25,15 @@ from dv import core
 from dv import trees as dvtrees
 from dv.core import cz, clist, copt, cbool
 
-HEADER = ("From DV Require Import Model.PyPrims Model.C13Model.\n"
+HEADER = ("From DV Require Import Model.PyPrims Model.C13Model Model.C13CharsCase.\n"
           "From Coq Require Import ZArith. From Coq Require String. Import String.StringSyntax. Open Scope Z_scope.")
 
 TMPDIR = "/var/tmp/dv-C13"
 
 MODEL_KW = {"extract_comment_metadata": False}
+SETS_BLOCK_KEYWORDS = "BEGIN SETS;\n  CHARSET both = begin trees;\n  CHARSET again = tree begin;\nEND;\n"
+SETS_KEYWORDS_DOC = ("#NEXUS\nBEGIN TAXA; DIMENSIONS NTAX=2; TAXLABELS a b; END;\n" + SETS_BLOCK_KEYWORDS
+                     + "BEGIN TREES; TREE t = (a,b); END;\n")
 ALARM_S = 10
 
 # ----------------------------------------------------------------------------------------------
@@ -167,19 +170,27 @@ def gen_nexus_doc(rng):
         feats["unknown_block"] = True
     if rng.random() < 0.08:
         nch = 4
-        doc += "BEGIN CHARACTERS;\n  DIMENSIONS%s NCHAR=%d;\n  FORMAT DATATYPE=DNA MISSING=? GAP=-;\n  MATRIX\n" % (
-            "" if ntaxa_blocks else " NEWTAXA NTAX=%d" % ntaxa, nch)
-        for l in pool[:ntaxa]:
+        char_labels = pool[:ntaxa]
+        char_link = ""
+        if ntaxa_blocks == 2:
+            lt = rng.choice([t for t in taxa_titles if t])
+            char_link = "  LINK TAXA = %s;\n" % lt
+            char_labels = block_labels[lt]
+            feats["chars_linked"] = True
+        doc += "BEGIN CHARACTERS;\n%s  DIMENSIONS%s NCHAR=%d;\n  FORMAT DATATYPE=DNA MISSING=? GAP=-;\n  MATRIX\n" % (
+            char_link, "" if ntaxa_blocks else " NEWTAXA NTAX=%d" % ntaxa, nch)
+        for l in char_labels:
             doc += "    %s %s\n" % (esc(l), "".join(rng.choice("ACGT-?") for _ in range(nch)))
         doc += "  ;\nEND;\n"
         feats["chars"] = True
         if feats.get("no_dimensions"):
             feats["chars_without_ntax"] = True      # the MATRIX command needs NTAX: not a valid document for DataSet.get
-        if ntaxa_blocks == 2:
-            feats["missing_link"] = True
         if rng.random() < 0.4:
             doc += "BEGIN SETS;\n  CHARSET first = 1-2;\nEND;\n"
             feats["sets"] = True
+    if not feats.get("chars") and rng.random() < 0.03:
+        doc += SETS_BLOCK_KEYWORDS       # set names that are the words begin / trees / tree (legal identifiers)
+        feats["sets_keywords"] = True
     nblocks = rng.choice([1, 1, 1, 2, 2, 3])
     feats["trees_blocks"] = nblocks
     counter = 0
@@ -224,6 +235,10 @@ def gen_nexus_doc(rng):
             else:
                 doc += rng.choice([";\n", "\n  ;\n", ";\n"])
             feats["translate"] = True
+        if token_of is None and ntaxa_blocks >= 1 and (linked is not None or ntaxa_blocks == 1) and rng.random() < 0.12:
+            # taxa referenced by their NUMBER in the (linked) TAXA block, as NEXUS allows
+            token_of = {pool[t]: "%d" % (t + 1) for t in range(ntaxa)}
+            feats["numeric_refs"] = True
         stmts = gen_statements(rng, ntrees, pool, ntaxa, token_of)
         for s in stmts:
             counter += 1
@@ -494,11 +509,27 @@ class Runner:
             return {"blocks": blocks, "mats": mats, "n_ns": len(ds.taxon_namespaces)}
         return self.guard(fn)
 
-    def matrix(self, how="data"):
+    def matcount(self, exclude_trees):
+        """number of character matrices DataSet.get(taxon_namespace=fresh[, exclude_trees=True]) delivers (None: error)"""
+        import dendropy
+        try:
+            with core.alarm(ALARM_S):
+                kw = dict(self.kw)
+                if exclude_trees:
+                    kw["exclude_trees"] = True
+                ds = dendropy.DataSet.get(data=self.doc, schema=self.schema, taxon_namespace=dendropy.TaxonNamespace(), **kw)
+                return len(ds.char_matrices)
+        except Exception:
+            return None
+
+    def matrix(self, how="data", ns0=None):
         import dendropy
 
         def fn():
-            cm = dendropy.DnaCharacterMatrix.get(schema=self.schema, **self.src(how), **self.kw)
+            kw = dict(self.kw)
+            if ns0 is not None:
+                kw["taxon_namespace"] = dendropy.TaxonNamespace(list(ns0))
+            cm = dendropy.DnaCharacterMatrix.get(schema=self.schema, **self.src(how), **kw)
             return dump_matrix(cm)
         return self.guard(fn)
 
@@ -579,9 +610,12 @@ def observe(case):
             run["yield_file"] = R.yielder(case["ns0"], how="file")
             run["array"] = R.array(case["array_offset"])
             run["array_path"] = R.array(case["array_offset"], how="path")
+            if case["schema"] == "nexus":
+                run["matcount"] = [[et, R.matcount(et)] for et in (False, True)]
             if case["feats"].get("chars"):
                 run["matrix"] = R.matrix()
                 run["matrix_path"] = R.matrix("path")
+
             obs["runs"].append(run)
         return obs
     finally:
@@ -677,7 +711,10 @@ def oracle_run(case, run):
         """route failed although the reference delivers / fails differently"""
         if not valid:
             return
-        if is_err(got) and err_class(got) in ("LinkRequiredError", "UndefinedBlockError") and want_err is None \
+        if case["feats"].get("sets_keywords") and is_err(got) and err_class(got) == "NexusReaderError":
+            viol("%s fails with %s although %s: a SETS block is left unconsumed when characters are excluded and its "
+                 "tokens are scanned for BEGIN" % (route, got["msg"], want_desc), "sets-block-unconsumed")
+        elif is_err(got) and err_class(got) in ("LinkRequiredError", "UndefinedBlockError") and want_err is None \
                 and LINK_2ND_CLAUSE_NOT_UPPER.search(case["doc"]):
             # _parse_link_statement upper-cases only the first keyword of a LINK statement
             viol("%s fails with %s although %s: the second clause of the LINK statement is matched case-sensitively"
@@ -710,7 +747,7 @@ def oracle_run(case, run):
         if want is None:
             if not is_err(got):
                 if valid:
-                    viol("%s fails with %s but %s delivers %s" % (ref_name, REF["msg"], route, brief(got)), "ref-error-vs-%s" % route.split("(")[0])
+                    viol("%s fails with %s but %s delivers %s" % (ref_name, REF["msg"], route, brief(got)), "sets-block-unconsumed" if case["feats"].get("sets_keywords") else "ref-error-vs-%s" % route.split("(")[0])
             elif got["err"] != ref_err and valid:
                 viol("%s fails with %s, %s with %s" % (ref_name, REF["msg"], route, got["msg"]), "error-class:" + route.split("(")[0])
             return
@@ -718,8 +755,13 @@ def oracle_run(case, run):
             err_mismatch(route, got, "%s delivers %d trees" % (ref_name, len(want["rich"])), None)
             return
         for d in diff_lists(want["rich"], got["rich"]):
-            viol("%s differs from %s in %s (%d / %d trees)" % (route, ref_name, d, len(got["rich"]), len(want["rich"])),
-                 "%s:%s" % (route.split("(")[0], d))
+            if d in ("newick", "nodes") and case["feats"].get("numeric_refs"):
+                # taxon numbers are resolved against the whole target namespace, not the document's TAXA block
+                viol("%s differs from %s in %s: taxa referenced by number resolve to other taxa (target namespace %s)"
+                     % (route, ref_name, d, got.get("ns")), "taxon-number-resolution")
+            else:
+                viol("%s differs from %s in %s (%d / %d trees)" % (route, ref_name, d, len(got["rich"]), len(want["rich"])),
+                     "%s:%s" % (route.split("(")[0], d))
         if taxa and want["ns"] is not None and len(want["rich"]) == len(got["rich"]) and (got["taxa"] != want["taxa"] or got["ns"] != want["ns"]):
             viol("%s and %s attach different taxa: %s in %s vs %s in %s" % (route, ref_name, got["taxa"], got["ns"], want["taxa"], want["ns"]),
                  "%s:taxa" % route.split("(")[0])
@@ -730,8 +772,7 @@ def oracle_run(case, run):
     cmp_flat("TreeList.get(path=)", run["list_path"], flat, True)
     same_ns = not case["ns0"]
     Rd = run["read"]
-    if same_ns:
-        cmp_flat("TreeList.read", Rd, flat, True)
+    cmp_flat("TreeList.read", Rd, flat, same_ns)
     if not is_err(Rd) and Rd["returned"] != len(Rd["rich"]):
         viol("TreeList.read returned %d for %d trees added" % (Rd["returned"], len(Rd["rich"])), "read-count")
     # the one-at-a-time iterator (namespace pre-populated with ns0, like TreeList.read)
@@ -739,10 +780,10 @@ def oracle_run(case, run):
         Y = run[name]
         route = "Tree.yield_from_files" + ("(file object)" if name == "yield_file" else "")
         if Y["end"] is None:
-            if same_ns:
-                cmp_flat(route, Y, flat, True)
-            elif flat is None and valid:
-                viol("%s fails with %s but %s delivers %d trees" % (ref_name, REF["msg"], route, len(Y["rich"])), "ref-error-vs-yield")
+            if flat is not None:
+                cmp_flat(route, Y, flat, same_ns)
+            elif valid:
+                viol("%s fails with %s but %s delivers %d trees" % (ref_name, REF["msg"], route, len(Y["rich"])), "sets-block-unconsumed" if case["feats"].get("sets_keywords") else "ref-error-vs-yield")
             if is_err(Rd):
                 err_mismatch("TreeList.read", Rd, "%s into the same namespace delivers %d trees" % (route, len(Y["rich"])), None)
             else:
@@ -772,7 +813,9 @@ def oracle_run(case, run):
                      "reader-not-attached:nexml-taxa" if case["schema"] == "nexml" else "read-twice:taxa")
     # DataSet.get without a namespace: one namespace per TAXA block, so taxa are compared by label only
     D = run["dataset"]
-    if case["schema"] != "newick":
+    if case["feats"].get("sets_keywords"):
+        pass        # a SETS block without a CHARACTERS block: DataSet.get (which reads characters) has nothing to attach the sets to
+    elif case["schema"] != "newick":
         if is_err(D):
             cmp_flat("DataSet.get", D, flat, False)
         else:
@@ -860,11 +903,16 @@ def oracle_run(case, run):
         D0 = run["dataset"]
         for name in ("matrix", "matrix_path"):
             M = run[name]
+            what = "CharacterMatrix.get" + ("(taxon_namespace=<namespace holding %s>)" % case["ns0"] if name == "matrix_ns0" else "")
             if is_err(D0) != is_err(M):
-                if valid:
-                    viol("DataSet.get gives %s, CharacterMatrix.get gives %s" % (brief(D0), brief(M)), "matrix:error")
+                if valid and is_err(M) and err_class(M) in UNATTACHED_ERRORS:
+                    # CharacterMatrix.get hands its namespace to the reader through a factory without attaching it
+                    viol("DataSet.get reads the matrix but %s fails with %s" % (what, M["msg"]),
+                         "matrix-reader-not-attached:" + err_class(M))
+                elif valid:
+                    viol("DataSet.get gives %s, %s gives %s" % (brief(D0), what, brief(M)), "matrix:error")
             elif not is_err(M) and (len(D0["mats"]) != 1 or D0["mats"][0] != M):
-                viol("CharacterMatrix.get %s differs from the matrix in DataSet.get %s" % (M, D0["mats"]), "matrix:content")
+                viol("%s %s differs from the matrix in DataSet.get %s" % (what, M, D0["mats"]), "matrix:content")
     return V
 
 
@@ -897,7 +945,7 @@ def oracle_array(case, run, viol, flat, valid):
     if is_err(want) != is_err(A):
         if valid or not is_err(A):
             viol("TreeArray.read gives %s; filling an array from the reference trees gives %s" % (brief(A), brief(want)),
-                 "array:error:" + err_class(A if is_err(A) else want))
+                 "sets-block-unconsumed" if case["feats"].get("sets_keywords") else "array:error:" + err_class(A if is_err(A) else want))
         return
     if is_err(A):
         return
@@ -1007,7 +1055,7 @@ LINK_CASE_DOC = ("#NEXUS\nBEGIN TAXA; TITLE T1; DIMENSIONS NTAX=2; TAXLABELS a b
 
 def variants():
     """which form of the sites with a recorded finding the working tree has (Model/C13Model.v:
-    v_attach, v_keep_label, v_link_ucase) - decided by replaying the findings on the implementation"""
+    v_attach, v_keep_label, v_link_ucase, v_sets_consume) - decided by replaying the findings on the implementation"""
     if not _VARIANTS:
         import dendropy
         doc = FIXED_DOCS[1][1]          # two TAXA blocks, LINKed TREES blocks
@@ -1023,14 +1071,20 @@ def variants():
             _VARIANTS["link_ucase"] = True
         except Exception:
             _VARIANTS["link_ucase"] = False
-    return _VARIANTS["attach"], _VARIANTS["keep_label"], _VARIANTS["link_ucase"]
+        try:        # does the reader skip a SETS block when characters are excluded?
+            dendropy.TreeList.get(data=SETS_KEYWORDS_DOC, schema="nexus")
+            _VARIANTS["sets_consume"] = True
+        except Exception:
+            _VARIANTS["sets_consume"] = False
+    return _VARIANTS["attach"], _VARIANTS["keep_label"], _VARIANTS["link_ucase"], _VARIANTS["sets_consume"]
 
 
 def to_coq(case, obs):
     _SK_NAMES.clear()
     body = to_coq_body(case, obs)
     lets = "".join("let %s := %s in " % (name, term) for term, name in _SK_NAMES.items())
-    return "(%s%s)" % (lets, body)
+    counts = [(et, n) for et, n in obs["runs"][0].get("matcount", []) if n is not None]
+    return "(mkCase2 (%s%s) [%s])" % (lets, body, ";".join("(%s, %d%%nat)" % (cbool(et), n) for et, n in counts))
 
 
 def to_coq_body(case, obs):
@@ -1055,12 +1109,14 @@ def to_coq_body(case, obs):
             continue        # DataSet.get reads the characters (not modelled); the attached variant is compared
         if case["feats"].get("chars"):
             continue
+        if not attached and re.search(r"BEGIN\s+(SETS|ASSUMPTIONS|CODONS)", case["doc"].upper()):
+            continue        # DataSet.get reads such a block (characters are not excluded): not modelled
         routes.append(("(RDataset %s)" % cbool(attached),
                        "(OBlocks %s)" % (c_err(D) if is_err(D) else "(Ok [%s])" % ";".join(c_sks(b["sk"]) for b in D["blocks"]))))
     strings = [t[0] for t in toks] + list(case["ns0"])
     low = "[" + ";".join("(%d,%d)" % p for p in lower_pairs(strings)) + "]"
-    va, vk, vl = variants()
-    return "(mkCase %s %s %s %s %s [%s] %s [%s])" % (cbool(va), cbool(vk), cbool(vl), cbool(case["schema"] == "nexus"), low, ";".join(c_token(t) for t in toks),
+    va, vk, vl, vs = variants()
+    return "(mkCase %s %s %s %s %s %s [%s] %s [%s])" % (cbool(va), cbool(vk), cbool(vl), cbool(vs), cbool(case["schema"] == "nexus"), low, ";".join(c_token(t) for t in toks),
                                             c_end(end), ";".join("(%s, %s)" % r for r in routes))
 
 
@@ -1083,7 +1139,7 @@ def count_case(ctx, case, obs):
     for k in ("taxa_blocks", "trees_blocks"):
         if k in f:
             ctx.count("%s:%d" % (k, f[k]))
-    for k in ("translate", "link", "link_other_target", "unknown_block", "chars", "sets", "late_statement", "no_end", "ends_after_eq",
+    for k in ("translate", "numeric_refs", "sets_keywords", "chars_linked", "link", "link_other_target", "unknown_block", "chars", "sets", "late_statement", "no_end", "ends_after_eq",
               "bad_header", "ntax_short", "no_dimensions"):
         if f.get(k):
             ctx.count("feature:" + k)
@@ -1110,6 +1166,9 @@ FIXED_DOCS = [
     ("nexus", "#NEXUS\nBEGIN TREES; LINK TAXA = x"),
     ("nexus", "#NEXUS\nBEGIN TAXA; TAXLABELS a b"),
     ("nexus", " \n"),
+    ("nexus", "#NEXUS\nBEGIN TAXA; TITLE T1; DIMENSIONS NTAX=2; TAXLABELS a b; END;\nBEGIN TAXA; TITLE T2; DIMENSIONS NTAX=2; TAXLABELS c d; END;\n"
+              "BEGIN TREES; LINK TAXA = T2; TREE y = (1,2); END;\n"),
+    ("nexus", SETS_KEYWORDS_DOC),
     ("newick", "(a,b);(c,d);"),
     ("newick", ""),
     ("newick", "(a,b)"),
@@ -1121,6 +1180,7 @@ def fixed_cases():
     out = []
     for schema, doc in FIXED_DOCS:
         out.append({"schema": schema, "doc": doc, "feats": {"schema": schema, "nstmts": doc.count("(") and 2, "fixed": True,
+                                                           "numeric_refs": "(1,2" in doc, "sets_keywords": "CHARSET both" in doc,
                                                            "taxa_blocks": doc.upper().count("BEGIN TAXA")},
                     "kw2": {"store_tree_weights": True}, "ns0": ["b", "zz"], "array_offset": 0})
     return out
@@ -1210,7 +1270,7 @@ def run(tier, seed, replay=None):
         print("document:", case["doc"])
         print("oracle:", vs if vs else "no violation")
         return 1 if vs else 0
-    ok = core.proof_stage(ctx, ["Props/C13.vo"])
+    ok = core.proof_stage(ctx, ["Props/C13.vo", "Model/C13CharsCase.vo"])
     if not ok:
         core.broken_proof(ctx, search)
     n = 260 if tier == "quick" else 3000
@@ -1231,8 +1291,8 @@ def run(tier, seed, replay=None):
             ctx.violation(what, {"case": case}, key=key)
         return vs[-1] if vs else None
 
-    core.corr_stage(ctx, model_cases, observe_counted, to_coq, HEADER, "case_ok", oracle=oracle_every,
-                    show_fn="case_run", nontrivial=nontrivial, search=search, shard=40, sample_fn=sample_fn)
+    core.corr_stage(ctx, model_cases, observe_counted, to_coq, HEADER, "case2_ok", oracle=oracle_every,
+                    show_fn="case2_run", nontrivial=nontrivial, search=search, shard=40, sample_fn=sample_fn)
     # NeXML: implementation-side oracle only
     m = 25 if tier == "quick" else 400
     for _ in range(m):
